@@ -327,6 +327,7 @@ SCHEMA = {
     CH_A: ("n o16", ["domain", "address"]),
     20: ("q qopt", ["address", "subaddress"]),
     27: ("gplat gplon gpalt", ["latitude", "longitude", "altitude"]),
+    25: ("keyrec", [("flags", "protocol", "algorithm", "key")]),
     250: ("nnr d48 d16 mac d16 ercode b64opt", ["algorithm", "time_signed", "fudge", "mac", "original_id", "error", "other"]),
     # composite kinds take several constructor arguments / attributes
     45: ("d8 gwi b64e", ["precedence", ("gateway_type", "algorithm", "gateway"), "key"]),
@@ -393,6 +394,10 @@ def gen_field(rng, kind):
             if t in ("", "-", "+", ".", "-.", "+."):
                 t = "1"
         return t.encode()
+    if kind == "keyrec":
+        f = rng.choice([0, 256, 257, 512, 0x4000, 0x8000, 0xC000, 0xC000, 0xC123, 0xFFFF, rng.randrange(65536)])
+        k = b"" if (f & 0xC000) == 0xC000 else (gen_bytes(rng, 50) or b"\x01")
+        return [f, rng.choice([0, 1, 3, 4, 255, rng.randrange(256)]), rng.choice([0, 1, 5, 8, 13, 255, rng.randrange(256)]), k]
     if kind == "mac":
         return gen_bytes(rng, 40) or b"\x00"
     if kind == "ercode":
@@ -487,6 +492,8 @@ def build_rdata(rdtype, vals):
             g, alg, gw = a
             gwo = None if gw == 0 else mkname(gw) if g == 3 else dec(gw)
             flat += [g, alg, gwo] if k == "gwi" else [g, gwo]
+        elif k == "keyrec":
+            flat += list(a)
         elif k == "d1":
             flat.append(bool(a))
         else:
@@ -515,6 +522,12 @@ def schema_cases(ctx):
         for dt in (0, 1, 2, 3, 4, 5, 255, 256):
             for n in sorted({1, 2, DS_LEN.get(dt, 7), DS_LEN.get(dt, 7) + 1}):
                 yield "rd-from-text", [41, rdtype, enc("60485 %s %d %s" % (rng.choice(["5", "8", "RSASHA1", "ED25519"]), dt, "ab" * n)), [None, 1, None]]
+    # KEY: flag / protocol mnemonics, NOKEY with and without key, raw (not unescaped) first tokens
+    for t in ("NOKEY|FLAG2 3 8", "HOST|SIG3 TLS RSASHA256 AQID", "ZONE|ZONE 3 5 AQID", "zone 3 5 AQID", "NOKEY 3 8 AQID", "256|ZONE 3 5 AQID",
+              "\\ZONE DNSSEC 8 AQID", '"ZONE" IPSEC 8 AQID', "70000 3 8 AQID", "USER|SIG0 ALL 8 AQID", "| 3 8 AA==", "ZONE| 3 8 AA==",
+              "256 NONE 8 AQID", "256 none 8 AQID", "256 300 8 AQID", '256 "TLS" ED25519 AQ ID', "\\050\\053\\054 3 8 AQID", "49152 3 8", "49151 3 8",
+              "NOCONF|NOAUTH 3 8", "NOKEY 3 BOGUS", "256 3 8 AQID )", "SIG15|FLAG11|NTYP3 EMAIL 255 /w==", "49152 3 8 ; c", "NOKEY 3 8\n"):
+        yield "rd-from-text", [41, 25, enc(t), [None, 1, None]]
     # GPOS: the float comparisons at the limits, and every shape _validate_float_string accepts / rejects
     for lim, pos in ((90, 0), (180, 1)):
         for t in ("%d", "-%d", "+%d.", "%d.0", "%d.000000000000001", "%d.00000000000001", "-%d.00000000000002", "%d.1", "0%d", "%d1",
@@ -754,7 +767,7 @@ def in_model(kind, case):
         text = dec(case[2])
         # names go through the IDNA codec when the text is not ASCII; the generic-syntax branch of a
         # schema type needs the wire codec (C02): neither is part of this model
-        if any(ord(c) > 127 for c in text) and (set(SCHEMA[case[1]][0].split()) & {"n", "nnr", "names", "gwi", "gwa", "bm", "etype", "escheme", "ectype", "ealg", "ealgnum", "sigtime", "alg"}):
+        if any(ord(c) > 127 for c in text) and (set(SCHEMA[case[1]][0].split()) & {"n", "nnr", "names", "gwi", "gwa", "keyrec", "bm", "etype", "escheme", "ectype", "ealg", "ealgnum", "sigtime", "alg"}):
             return False
         if "a6" in SCHEMA[case[1]][0] and ("\\" in text or any(ord(c) > 127 for c in text)):
             # escapes can put a line break into the address text (regular-expression corner case)
@@ -908,6 +921,9 @@ def impl(case):
                     continue
                 if k in ("gwi", "gwa"):
                     out.append([int(v[0]), int(v[1]) if k == "gwi" else 0, gw_enc(v[-1])])
+                    continue
+                if k == "keyrec":
+                    out.append([int(v[0]), int(v[1]), int(v[2]), bytes(v[3])])
                     continue
                 if k == "nnr":
                     out.append(nl.labels_of(v))
